@@ -156,10 +156,19 @@ class Cond:
         return '%s %s "%s"' % (self.key, self.op, self.value)
 
     # what the parser is expected to store
+    captured = False    # a redirect/rewrite value in the block uses %N: config_finalize() turns a
+                        # (parser-)simplified condition back into a regex to get captures
+
     def stored(self):
         cond, s, extra = OPS_TXT[self.op], self.value, "-"
         if self.op == "=~" and self.comp != "S":
             cond, s = simplify_regex(s)
+        if self.captured and cond in ("eq", "pr", "su"):
+            if cond != "su" or s[:1] == ".":
+                s = ("\\" if cond == "su" else "^") + s
+            if cond != "pr":
+                s += "$"
+            cond = "re"
         if self.comp == "I" and cond in ("eq", "ne"):
             v = self.value.strip("[]")
             if "/" in v:
@@ -884,6 +893,9 @@ def gen_corpus(ctx):
 TRUSTED, UNTRUSTED = "127.0.0.1", "8.8.8.8"
 RW_RULES = [("^/rw/(.*)$", "/\\1", "/$1"), ("^/q/(.*)$", "/\\1?z", "/$1?z"), ("^/php/(.*)$", "/\\1.php", "/$1.php")]
 RW_LINE = "url.rewrite-once = ( " + ", ".join('"%s" => "%s"' % (a, c) for a, _, c in RW_RULES) + " )"
+# the same rules plus one that never fires but uses a %N capture of the enclosing condition
+RW_LINE_CAP = RW_LINE[:-2] + ', "^/never-fires/(.*)$" => "/%0/$1" )'
+ANCHORED = ["^/a$", "^/a", "/x$", "^/b/x$", "^/a/b", "^/c$", "^/b", "\\.php$", "^/a/x$", "/b$"]
 
 
 def srv_head(order):
@@ -977,9 +989,22 @@ def srv_line(rng, max_nodes, nreq):
     cfg.head = srv_head(order)
     cfg.order = order
     cfg.rw_node = None
-    if len(cfg.nodes) > 1 and rng.random() < 0.35:
+    if len(cfg.nodes) > 1 and rng.random() < 0.5:
         cfg.rw_node = rng.randrange(1, len(cfg.nodes))
-        cfg.nodes[cfg.rw_node].extra = [RW_LINE]
+        nd = cfg.nodes[cfg.rw_node]
+        nd.extra = [RW_LINE]
+        if nd.cond is not None and rng.random() < 0.6:
+            # the block gets an anchored literal regex on the url as condition (simplified by the parser
+            # to == / =^ / =$) and a rule value with %N (config_finalize() rebuilds the regex)
+            sibs = set((x.cond.key, x.cond.stored()[1]) for x in cfg.nodes[1:]
+                       if x is not nd and x.parent == nd.parent and x.cond is not None)
+            for pat in rng.sample(ANCHORED, len(ANCHORED)):
+                c = Cond("U", KEYS["U"][0][0], None, "=~", pat)
+                if (c.key, c.stored()[1]) not in sibs:
+                    c.captured = True
+                    nd.cond = c
+                    nd.extra = [RW_LINE_CAP]
+                    break
     else:
         cfg.head.append(RW_LINE)
     remember(cfg)
